@@ -8,7 +8,7 @@ use proptest::prelude::*;
 use serde::{Deserialize, Serialize};
 use std::cmp::Ordering;
 
-pub const RULE: &str = "generated pairs and triples of epochs in any combination of the nine scales, built from a model instant x on the TAI axis and separations delta in {0, +-1 ns, +-2 ns, +-(161 ns..10 us), +-1 s, large}, each operand re-expressed in its scale by the model; structured pairs symmetric about a scale's reference epoch, either side of each leap entry, same instant in two scales; oracle = chronological order of the model instants for every comparison operator in both operand orders, min/max, Range::contains, sort, and invariance under to_time_scale of either operand to a third scale; non-trivial = different scales, |delta| <= 2 ns, a symmetric pair, or within 40 s of a leap entry; distinct = distinct case tuples (hash set, capped: lower bound)";
+pub const RULE: &str = "generated pairs and triples of epochs in any combination of the nine scales, built from a model instant x on the TAI axis and separations delta in {0, +-1 ns, +-2 ns, +-(161 ns..10 us), +-1 s, large}, each operand re-expressed in its scale by the model; structured pairs symmetric about a scale's reference epoch, either side of each leap entry, same instant in two scales; oracle = chronological order of the model instants for every comparison operator in both operand orders, min/max, Range::contains, sort, and invariance under to_time_scale of either operand to a third scale; non-trivial = different scales, |delta| <= 2 ns, a symmetric pair, or within 40 s of a leap entry; distinct = distinct case tuples (hash set, capped: lower bound); sets (c12.sets): 2-12 epochs of the seven exact scales at and around one instant, all pairs compared, sorted, deduplicated and searched; non-trivial = at least three operands in more than one scale";
 
 pub const ASSUMPTIONS: &[&str] = &[
     "ET/TDB operands in different scales are only generated more than 160 ns apart (100 ns of the statement + 60 ns margin for the model's and the library's conversion error); within one scale any separation is generated",
@@ -267,6 +267,7 @@ pub fn subs() -> Vec<Box<dyn DynSub>> {
     vec![
         sub(Sub { name: "c12.pairs", source: Source::Gen(pair_strategy, 4_000_000, 50_000_000), oracle: pair_oracle, known: no_known, hang_is_violation: false }),
         sub(Sub { name: "c12.triples", source: Source::Gen(triple_strategy, 800_000, 8_000_000), oracle: triple_oracle, known: no_known, hang_is_violation: false }),
+        crate::props::chain::c12_chain(),
         crate::props::fuzzsub::fc12(),
     ]
 }
